@@ -235,6 +235,7 @@ func stage2Paths(rs *Resid, body *ast.BlockStmt, maxIter int) ([]gsPath, string)
 }
 
 var starTypeRe = regexp.MustCompile(`(\*|new\(|&)(__T\d+)`)
+var addrLitRe = regexp.MustCompile(`&(__T\d+)\{\}`)
 
 func gostringIssues(rs *Resid, fn *ast.FuncDecl, maxIter int) ([]sideIssue, int, string) {
 	var out []sideIssue
@@ -423,6 +424,26 @@ func gostringIssues(rs *Resid, fn *ast.FuncDecl, maxIter int) ([]sideIssue, int,
 		if bl, ok := n.(*ast.BasicLit); ok && bl.Kind == token.STRING {
 			for _, id := range regexp.MustCompile(`__T\d+`).FindAllString(bl.Value, -1) {
 				printed[id] = true
+			}
+			// the target of a pointer to a map or a slice starts out nil (new(T)): the code that fills it prints nothing for a nil
+			// map or slice, so a target that is allocated as an empty composite (&T{}) turns a pointer to nil into a pointer to an
+			// empty value — nil and empty containers behind a pointer no longer round-trip
+			for _, m := range addrLitRe.FindAllStringSubmatch(bl.Value, -1) {
+				h := rs.hole(m[1])
+				if h == nil {
+					continue
+				}
+				k := ""
+				if o, ok := h.Val.(*VOpaque); ok {
+					k = kindOfVal(underlyingVal(unmangled(o)))
+					if k == "" {
+						org := strings.TrimPrefix(strings.TrimPrefix(o.Origin, "mangled:"), "bypass:")
+						k = kindFacts(rs.Run)[strings.ReplaceAll(org, ".Underlying()", "")]
+					}
+				}
+				if k == "*types.Map" || k == "*types.Slice" {
+					iss(bl, "nonnil-target", "prints `&%s{}` as the target of a pointer to a %s: the target is then never nil, although nothing is printed for a nil %s behind the pointer, so a pointer to a nil value comes back as a pointer to an empty one", m[1], strings.TrimPrefix(k, "*types."), strings.ToLower(strings.TrimPrefix(k, "*types.")))
+				}
 			}
 			// a type under a pointer constructor must be the declared type, not its Underlying()
 			for _, m := range starTypeRe.FindAllStringSubmatch(bl.Value, -1) {
